@@ -66,7 +66,7 @@ def render_line(ln, k, as_text):
 
 
 def render_file(file, nl, term, as_text):
-    sep = ("\r\n" if nl else "\n")
+    sep = {0: "\n", 1: "\r\n", 2: "\r"}[nl]
     lines = [render_line(ln, k, as_text) for k, ln in enumerate(file)]
     if as_text:
         return sep.join(lines) + (sep if term and lines else "")
@@ -107,7 +107,13 @@ def exec_read(c):
     from swcgeom.core.swc_utils import read_swc
     o = c["o"]
     as_text = o["src"] == 0
-    data = render_file(c["file"], o["nl"], o["term"], as_text)
+    nl, enc = o["nl"], o["enc"]
+    plain = not any(ln["k"] == "U" for ln in c["file"])
+    if not as_text and lib.vid(c) % 7 == 3:
+        nl = 2                  # lines ended by a bare carriage return (bytes and files are decoded with universal newlines)
+    if not as_text and plain and lib.vid(c) % 5 == 0:
+        enc = "detect"          # the documented "detect the character encoding" mode (an all-ASCII file)
+    data = render_file(c["file"], nl, o["term"], as_text)
     if o["src"] == 0:
         src = io.StringIO(data)
     elif o["src"] == 1:
@@ -116,7 +122,7 @@ def exec_read(c):
         src = os.path.join(scratch(), "neuron.swc")
         with open(src, "wb") as f:
             f.write(data)
-    kw = dict(sort_nodes=(o["mode"] == 0), reset_index=(o["mode"] == 1), encoding=o["enc"])
+    kw = dict(sort_nodes=(o["mode"] == 0), reset_index=(o["mode"] == 1), encoding=enc)
     if o["nex"]:
         kw["extra_cols"] = ["e"]
     try:
